@@ -58,9 +58,16 @@ def _functions_referenced(model):
     return known, used
 
 
-def check_result(ctx, case, entry, opts, as_ir, m2, wf_batch, stats):
+def check_result(ctx, case, entry, opts, as_ir, m2, wf_batch, stats, base=None):
     """Structural checks of one result (everything except the Coq-evaluated checkers, which are batched)."""
     doc = lambda extra=None: K.replay_doc(case, entry, opts, as_ir, extra)  # noqa: E731
+
+    def known_class(still_bad):
+        """keys of the known folder defects (C03's classes, as they surface here) that explain the failed check: an equivalent
+        variant of the model that avoids the defect passes it"""
+        if base is None:
+            return []
+        return ["C04" + k[3:] for k in K.known_class_by_variant(case, base, entry, opts, as_ir, still_bad)]
     # a graph output that lost its declared type (the checker failure and the signature change below are its consequences)
     t0 = {o.name: o.type.tensor_type.elem_type for o in case.model.graph.output if o.type.HasField("tensor_type")}
     lost = [o.name for o in m2.graph.output if t0.get(o.name) and not (o.type.HasField("tensor_type") and o.type.tensor_type.elem_type)]
@@ -81,14 +88,20 @@ def check_result(ctx, case, entry, opts, as_ir, m2, wf_batch, stats):
         except Exception:
             cul = K.culprit(case.model, m2)
         structural = K.known_structural_class(case.model, m2)
+        kc = known_class(_checker_fails) if structural is None else []
         if structural is not None:
             ctx.violation("C04:" + structural, f"result of {entry} fails onnx.checker: {str(e)[:200]}", doc({"checker": str(e)[:300]}))
+        elif kc:
+            for key in kc:
+                ctx.violation(key, f"result of {entry} fails onnx.checker: {str(e)[:200]}", doc({"checker": str(e)[:300]}))
         else:
             ctx.violation(f"C04:checker:{stage}:{cul}:{_norm_msg(e)}", f"result of {entry} fails onnx.checker: {str(e)[:200]}", doc({"checker": str(e)[:300]}))
         stats["violations"] += 1
     d = R.signature_diff(case.model, m2)
     if d is not None:
-        ctx.violation(f"C04:signature:{d[0]}:{entry}", f"{entry}: {d[1]}", doc({"signature": d[1]}))
+        kc = known_class(lambda mm: R.signature_diff(case.model, mm) is not None)
+        for key in (kc or [f"C04:signature:{d[0]}:{entry}"]):
+            ctx.violation(key, f"{entry}: {d[1]}", doc({"signature": d[1]}))
         stats["violations"] += 1
     known0, used0 = _functions_referenced(case.model)
     known2, used2 = _functions_referenced(m2)
@@ -128,6 +141,14 @@ def check_result(ctx, case, entry, opts, as_ir, m2, wf_batch, stats):
                 s0, o0 = R.run_ort(case.model, full)
                 s2, o2 = R.run_ort(m2, full)
                 if s0 == "ok" and s2 == "ok":
+                    # does the optimized model differ from the original already for the DEFAULT values (all of them fed
+                    # explicitly)?  Then the difference has nothing to do with the override: it is C03's finding, reported there
+                    dflt = [dict(fd, **{n: a for n, a, _ in case.overridable}) for fd in case.feeds]
+                    sd0, od0 = R.run_ort(case.model, dflt)
+                    sd2, od2 = R.run_ort(m2, dflt)
+                    if sd0 == "ok" and (sd2 != "ok" or any(R.compare_outputs(a, b, case.exact) is not None for a, b in zip(od0, od2))):
+                        stats["differs-for-default-values-too(C03)"] += 1
+                        o0, o2 = [], []
                     for a, b in zip(o0, o2):
                         dd = R.compare_outputs(a, b, case.exact)
                         if dd is not None:
@@ -437,7 +458,7 @@ def run(ctx):
     wf_batch = _Batch()
     wf_batch.seen = set()
 
-    def one_case(c, plan):
+    def one_case(c, plan, base=None):
         for entry, opts, as_ir in plan:
             stats["runs"] += 1
             try:
@@ -449,9 +470,9 @@ def run(ctx):
                               K.replay_doc(c, entry, opts, as_ir, {"exception": t, "site": site, "message": msg}))
                 stats["raised"] += 1
                 continue
-            check_result(ctx, c, entry, opts, as_ir, m2, wf_batch, stats)
+            check_result(ctx, c, entry, opts, as_ir, m2, wf_batch, stats, base=base)
 
-    n_dag = 90 if quick else 700
+    n_dag = 90 if quick else 560
     import itertools
     for c in itertools.chain(K.corpus_stream(rng, "C04"), K.dag_stream(rng, n_dag, overridable_every=3, start=7000)):
         if not isinstance(c, G.Case):
@@ -467,7 +488,11 @@ def run(ctx):
                 ("fold_constants", R.option_tuples(rng, 2)[1], rng.random() < 0.5), ("rewrite", None, rng.random() < 0.5)]
         if not quick:
             plan += [("optimize_ir", R.option_tuples(rng, 2)[1], True), ("optimize", R.option_tuples(rng, 2)[1], True)]
-        one_case(c, plan)
+        if c.kind == "corpus":
+            # minimised past failures are replayed under the small size limits too (size-gating code paths)
+            plan += [("fold_constants", (1, False, True, True, 8192, 4), False), ("optimize", (1, True, True, True, 8192, 0), True),
+                     ("fold_constants", (1, True, True, True, 0, 0), True)]
+        one_case(c, plan, base)
         if stats["valid-dag-models"] % 2 == 0:
             check_custom_domain(ctx, c, stats)
         if stats["valid-dag-models"] == 2:
@@ -480,7 +505,7 @@ def run(ctx):
             continue
         stats["valid-lifted-models"] += 1
         ctx.case(("lifted", c.kind, c.features[-1] if c.features else ""))
-        one_case(c, [("optimize", None, False), ("fold_constants", None, False), ("rewrite", None, True)])
+        one_case(c, [("optimize", None, False), ("fold_constants", None, False), ("rewrite", None, True)], base)
     eval_wf(ctx, wf_batch, stats)
 
     # the witness of C04_unguarded_initializer_input_folded_refuted on the real code (If on an overridable condition)
